@@ -1101,10 +1101,14 @@ struct Scripted<'b> {
     reads: u64,
     errored: bool,
     reads_after_error: u64,
+    bl_min: usize,
+    bl_max: usize,
 }
 impl<'b> std::io::Read for Scripted<'b> {
     fn read(&mut self, buf: &mut [u8]) -> std::io::Result<usize> {
         self.reads += 1;
+        self.bl_min = self.bl_min.min(buf.len());
+        self.bl_max = self.bl_max.max(buf.len());
         if self.errored {
             self.reads_after_error += 1;
             return Ok(0);
@@ -1159,12 +1163,24 @@ impl<'a> GenRec<'a> {
     /// hash_stream over `data` with a scripted reader; g = the generator that holds exactly the
     /// bytes delivered before end of file (meaningful when the script contains no error)
     pub fn stream(&mut self, g: usize, data: &[u8], script: Vec<El>) {
-        let mut rd = Scripted { data, pos: 0, script: script.clone(), i: 0, reads: 0, errored: false, reads_after_error: 0 };
+        let mut rd = Scripted { data, pos: 0, script: script.clone(), i: 0, reads: 0, errored: false, reads_after_error: 0, bl_min: usize::MAX, bl_max: 0 };
         let r = catch_unwind(AssertUnwindSafe(|| ssdeep::hash_stream(&mut rd)));
+        // the caller prepared g for the buffer length the reader loop has today; if the loop asked
+        // for other lengths the reader delivered another prefix: the comparison generator is then
+        // rebuilt from what was really delivered (the property does not fix a buffer size)
+        let mut g = g;
+        let expect = self.gens.get(g).and_then(|x| x.as_ref()).map(|x| x.input_size()).unwrap_or(0);
+        if !rd.errored && rd.pos as u64 != expect {
+            g = 7;
+            self.new_gen(g);
+            let delivered = rd.pos;
+            self.update(g, 0, &data[..delivered]);
+        }
         self.sh.emit_w(
             &format!(
-                "{{\"ev\":\"stream\",\"g\":{},\"n\":{},\"script\":{},\"r\":{},\"reads\":{},\"reads_after_error\":{}}}",
-                g, data.len(), script_json(&script), io_result_json(r), rd.reads, rd.reads_after_error
+                "{{\"ev\":\"stream\",\"g\":{},\"n\":{},\"script\":{},\"r\":{},\"reads\":{},\"reads_after_error\":{},\"bl\":{}}}",
+                g, data.len(), script_json(&script), io_result_json(r), rd.reads, rd.reads_after_error,
+                if rd.bl_min == rd.bl_max { rd.bl_min as i64 } else { -1 }
             ),
             4,
         );
